@@ -5,7 +5,7 @@
 (*   inotify delivering directory events in order but arbitrarily late,     *)
 (*   containers finishing on their own (marker file + tombstone),           *)
 (*   monitor.MonitorContainerCleanup.execute, cleanup.Cleanup.invoke,       *)
-(*   and restarts of the manager.                                           *)
+(*   restarts of the manager and starts of the node's services.             *)
 (*                                                                          *)
 (* PART 1 is a library of pure successor functions over a state record s    *)
 (* (no CONSTANT, no VARIABLE is referenced): the trace specification        *)
@@ -120,6 +120,13 @@ DoCleanupDone(s, nm) ==
 (* a new AppCfgMgr process: fresh inotify watch, inactive until the next    *)
 (* event on .ready                                                          *)
 DoRestart(s) == [s EXCEPT !.active = FALSE, !.pending = <<>>]
+
+(* the node's services start (boot, or a restart of the whole supervision   *)
+(* tree): "On startup run.sh will clear running and cleanup" (docstring of  *)
+(* _synchronize); apps/ and cache/ survive, every supervisor and with it    *)
+(* every pending exit tombstone is gone, a new manager starts inactive      *)
+DoNodeStart(s) == [s EXCEPT !.running = EmptyFn, !.cleanup = EmptyFn, !.tomb = {},
+                            !.active = FALSE, !.pending = <<>>]
 
 (* ---- AppCfgMgr --------------------------------------------------------- *)
 (* _terminate(a): readlink running/a; rename it to cleanup/<container>;     *)
@@ -328,6 +335,7 @@ MonitorCleanup(c) == /\ Idle /\ c \in st.tomb
 CleanupCompletes(nm) == /\ Idle /\ nm \in DOMAIN st.cleanup
                         /\ st' = DoCleanupDone(st, nm) /\ UNCHANGED n
 ManagerRestart == /\ Env /\ st' = DoRestart(st) /\ n' = Tick
+NodeStart == /\ Env /\ st' = DoNodeStart(st) /\ n' = Tick
 
 Head1(s) == Head(s.pending)
 NoOrds == EmptyFn
@@ -365,6 +373,7 @@ Next ==
   \/ \E c \in AllConts : MonitorCleanup(c)
   \/ \E nm \in AllLinkNames : CleanupCompletes(nm)
   \/ ManagerRestart
+  \/ NodeStart
   \/ \E nm \in Names : OnCreated(nm)
   \/ \E nm \in Names : OnModified(nm)
   \/ \E nm \in Names : OnDeleted(nm)
